@@ -89,4 +89,40 @@ theorem WeaC.read_disc (w : WeaC) (h : w.wfDisc) :
   simp [WeaC.period, hh, hg, ef, el, withLeap, hfl, hll, f1, f2, f3, g1, g2, g3, hmk, hlen, n1, n2,
     hcont, hds, hne]
 
+/-- Round 5.  A Wea over unflagged discontinuous collections whose steps do not fill the period spanned
+    by the first and the last one: the reader falls back to the annual period and takes the datetimes AS
+    LISTED - whatever their order.  Full law (the object comes back). -/
+theorem WeaC.law_scattered : Law WeaC.enc WeaC.rd.dec WeaC.wfScattered := by
+  intro w h
+  rcases w with ⟨loc, ap, dni, dhi, times, valid⟩
+  obtain ⟨hl, hap, hts, hv, ⟨l, first, last, ht, hf, hla, hall, ⟨sp, hsp, hlen⟩, n1, n2⟩, s1, s2⟩ := h
+  simp only at hl hap hts hv ht hf hla hall hsp hlen n1 n2 s1 s2
+  subst ht hv
+  have l1 := Loc.law loc hl
+  have e1 := map_jsonRT_stable dni s1
+  have e2 := map_jsonRT_stable dhi s2
+  have hfm : first ∈ l := List.mem_of_mem_head? hf
+  have hlm : last ∈ l := List.mem_of_getLast? hla
+  have ef := dtOfArray_roundtrip first (hall first hfm).1
+  have el := dtOfArray_roundtrip last (hall last hlm).1
+  have hfl : first.leap = ap.leap := (hall first hfm).2
+  have hll : last.leap = ap.leap := (hall last hlm).2
+  have ha := annual?_eq ap.ts ap.leap hts
+  rw [← hap] at ha
+  have hds := decDts_roundtrip l (fun d hd => (hall d hd).1)
+  have hne : l ≠ [] := by intro e; subst e; simp at hf
+  have hnotann : (WeaC.isAnnual ⟨loc, ap, dni, dhi, some l, false⟩) = false := by
+    simp [WeaC.isAnnual]
+  simp only [WeaC.enc, hnotann, Bool.false_eq_true, if_false, jsonRT_dict, kv, List.map_cons,
+    List.map_nil, List.map_append, keyStr_str, jsonRT_str, jsonRT_bool, jsonRT_tuple, jsonRT_list,
+    jsonRT_natV, e1, e2, List.map_map]
+  rw [RecDec.dec_dict]
+  simp only [WeaC.rd, WeaC.run]
+  simp [lookupKV, WeaC.make, tagIs, PyVal.list?, dtListOf, l1, PyVal.truthy]
+  have hh : (l.map (jsonRT ∘ dtArray)).head? = some (jsonRT (dtArray first)) := by
+    rw [head?_map, hf]; rfl
+  have hg : (l.map (jsonRT ∘ dtArray)).getLast? = some (jsonRT (dtArray last)) := by
+    rw [List.getLast?_map, hla]; rfl
+  simp [WeaC.period, hh, hg, ef, el, withLeap, hfl, hll, hsp, hlen, ha, n1, n2, hds, hne]
+
 end Codec
